@@ -1552,7 +1552,8 @@ func (in *Interp) conv(dst, src types.Type, x value) value {
 			return ts.ZExt(t, dw)
 		case isInteger(us) && isFloat(db):
 			if !t.IsConst() {
-				in.unsupported("symbolic int to float conversion")
+				// floats are concrete-only: split on the feasible integer values (bounded by the fork cap)
+				t = in.concretizeByModel(t, "int to float conversion")
 			}
 			if isSigned(us) {
 				return in.mkFloat(db, float64(t.Int()))
